@@ -43,6 +43,9 @@ def plan(tier, seed):
         specs.append({"kind": "grammar", "n": 150 if tier == "quick" else 500})
     for i in range(4 if tier == "quick" else 12):
         specs.append({"kind": "noise", "n": 3000 if tier == "quick" else 25000})
+    nn = 4 if tier == "quick" else 16
+    for i in range(nn):
+        specs.append({"kind": "numsoup", "maxlen": 5 if tier == "quick" else 6, "part": i, "of": nn})
     specs.append({"kind": "nest"})
     for hs in ([1, 2] if tier == "quick" else [1, 2, 3, 4]):
         specs.append({"kind": "xproc", "hashseed": hs, "n": 1500})
@@ -242,6 +245,23 @@ def run_shard(spec, ctx):
             for b in A:
                 for sep in (" ", "", "\n"):
                     check_text(ctx, a + sep + b)
+    elif kind == "numsoup":
+        # every text over the characters numbers are written with, to length 5 (6 in the thorough tier): alone, inside
+        # brackets, and followed by a line break and another token
+        import itertools
+        chars = ["1", "0", ".", "e", "E", "+", "-", "_", "x", "b", "f"]
+        idx = 0
+        for L in range(1, spec["maxlen"] + 1):
+            for tup in itertools.product(chars, repeat=L):
+                idx += 1
+                if idx % spec["of"] != spec["part"]:
+                    continue
+                t = "".join(tup)
+                check_text(ctx, t, deep=False)
+                if L >= 3:
+                    check_text(ctx, "[" + t + "]", deep=False)
+                    check_text(ctx, "f(" + t + "\n, 2)", deep=False)
+                ctx.count("number_like_texts")
     elif kind == "soup3":
         R = syntax.REDUCED_ALPHABET
         for i, a in enumerate(R):
